@@ -8,6 +8,7 @@ import (
 	"encoding/binary"
 	"fmt"
 	"io"
+	"math"
 	"sync"
 
 	"golang.org/x/crypto/chacha20poly1305"
@@ -182,9 +183,11 @@ func (s *SessionKey) Decrypt(ciphertext []byte) ([]byte, error) {
 		s.mu.Unlock()
 		return nil, fmt.Errorf("nonce too old: received %d, expected >= %d", nonceValue, expectedValue)
 	}
-	// Update expected nonce if this one is higher
-	if nonceValue >= s.recvNonce {
-		s.recvNonce = nonceValue + 1
+	// The last counter value is never accepted, so that recvNonce = counter+1
+	// below cannot wrap around to 0 and re-open the window for replays.
+	if nonceValue == math.MaxUint64 {
+		s.mu.Unlock()
+		return nil, fmt.Errorf("nonce counter exhausted")
 	}
 	s.mu.Unlock()
 
@@ -197,6 +200,17 @@ func (s *SessionKey) Decrypt(ciphertext []byte) ([]byte, error) {
 	if err != nil {
 		return nil, fmt.Errorf("decrypt: %w", err)
 	}
+
+	// Advance the receive window only now that the frame is authenticated: a
+	// rejected (forged, tampered) frame must not change what is accepted later.
+	// Re-check under the lock so that concurrent calls cannot accept one frame twice.
+	s.mu.Lock()
+	if current := s.recvNonce; nonceValue < current {
+		s.mu.Unlock()
+		return nil, fmt.Errorf("nonce too old: received %d, expected >= %d", nonceValue, current)
+	}
+	s.recvNonce = nonceValue + 1
+	s.mu.Unlock()
 
 	return plaintext, nil
 }
